@@ -446,11 +446,12 @@ structure RunResult where
   divert : Option Divert := none
 
 /-- `run_trap`: `$?` is saved before and restored after the body unless the body ends in
-    `Divert::Interrupt` (then `$?` stays and `Interrupt(Some(_))` is updated to it) -/
+    `Divert::Interrupt`: `Interrupt(Some(e))` carries the status of the error that interrupted the
+    action, which becomes `$?`; with `Interrupt(None)` `$?` stays what the body left -/
 def runTrap (body : Body) (cmd : Nat) (exit : Int) (t : TrapMap) : Int × Option Divert × TrapMap :=
   let r := body cmd exit t
   match r.1.divert with
-  | some (.interrupt st) => (r.1.exit, some (.interrupt (st.map fun _ => r.1.exit)), r.2)
+  | some (.interrupt st) => (st.getD r.1.exit, some (.interrupt st), r.2)
   | d => (exit, d, r.2)
 
 /-- the `while let Some(..) = env.traps.take_caught_signal()` loop of
